@@ -268,6 +268,20 @@ def gen_C05(rng, tier):
     pc['enable_timeouts'] = True
     pc['lost_worker_timeout'] = rng.choice([1.0, 10.0])
     ops = case['users'][0]
+    if rng.random() < 0.25:
+        # a nearly-late job next to an overdue one: the scan that enforces the overdue job's limit is busy for
+        # a while (it waits for that worker to die); meanwhile the other job finishes just inside its own limit
+        # and the limit elapses on the clock before the same scan gets to it
+        pc['processes'] = rng.choice([2, 3])
+        ops.append(['sleep', round(rng.random(), 2)])
+        L = rng.choice([0.6, 1.2, 2.0])
+        add_applies(rng, c, ops, 1, mk=lambda: prog_long(rng, L + rng.choice([0.8, 2.0])), opts={'timeout': L})
+        for _ in range(rng.randint(1, 2)):
+            x = round(L + rng.choice([0.05, 0.12, 0.2, 0.3, 0.45, 0.7]), 3)
+            add_applies(rng, c, ops, 1, mk=lambda: prog_long(rng, x - rng.choice([0.03, 0.06, 0.1])),
+                        opts={'timeout': x})
+        while ops and ops[-1][0] == 'sleep':
+            ops.pop()
     for _ in range(rng.randint(1, 5)):
         r = rng.random()
         own = rng.choice([None, None, 0.6, 1.5, 3.0])
@@ -280,7 +294,13 @@ def gen_C05(rng, tier):
             opts = {}
             if own:
                 opts['timeout'] = own
-            add_applies(rng, c, ops, 1, mk=lambda: prog_long(rng, dur), opts=opts)
+            prog = prog_long(rng, dur)
+            if lim and rng.random() < 0.3:
+                # a soft limit before the hard one, in a task that catches it and goes on: the hard limit
+                # must still be enforced
+                opts['soft_timeout'] = round(lim * rng.choice([0.3, 0.6]), 3)
+                prog = [['catch_soft', prog[:-1], prog_long(rng, rng.choice([0.5, 2.0, 5.0]))[:-1]], prog[-1]]
+            add_applies(rng, c, ops, 1, mk=lambda: prog, opts=opts)
         elif r < 0.85:
             add_map(rng, c, ops, n=rng.choice([1, 3, 6]),
                     mkitem=lambda: prog_ok(rng, maxticks=1, sleep=rng.choice([0.05, 0.5, 1.5])))
@@ -310,8 +330,12 @@ def gen_C06(rng, tier):
         dur = (soft or 1.0) + rng.choice([-0.3, 0.2, 1.2, 2.5, 4.5])
         dur = max(0.05, dur)
         body = prog_long(rng, dur)
-        if rng.random() < 0.4:
+        r = rng.random()
+        if r < 0.25:
             prog = [['catch_soft', body[:-1], 'caught'], body[-1]]
+        elif r < 0.55:
+            # catches the soft limit and keeps working for a while (several more scans go by)
+            prog = [['catch_soft', body[:-1], prog_long(rng, rng.choice([0.6, 1.5, 3.2]))[:-1]], body[-1]]
         else:
             prog = body
         opts = {}
@@ -322,6 +346,9 @@ def gen_C06(rng, tier):
         add_applies(rng, c, ops, 1, mk=lambda: prog, opts=opts)
         if rng.random() < 0.3:
             add_applies(rng, c, ops, 1)
+    if rng.random() < 0.3:
+        # slow result callbacks: scans go by while the result handler is inside a job's callback
+        case['cb_delay'] = rng.choice([0.4, 1.2, 2.6])
     return case
 
 
@@ -589,7 +616,8 @@ def shrink(case):
             c = copy.deepcopy(case)
             c['pool'][key] = None
             yield c
-    for key, val in (('short_io', False), ('pipe_cap', 65536), ('sleep_jitter', 0.0), ('policy', 'fifo')):
+    for key, val in (('short_io', False), ('pipe_cap', 65536), ('sleep_jitter', 0.0), ('policy', 'fifo'),
+                     ('cb_delay', None)):
         if case.get(key) != val:
             c = copy.deepcopy(case)
             c[key] = val
